@@ -208,7 +208,8 @@ protected:
       }
       return const_cast<void*>(function_table[p]);
     } else {
-      return reinterpret_cast<void*>(base + static_cast<uintptr_t>(p));
+      // every representation designates a byte of the region (a representation wider than the region is masked)
+      return reinterpret_cast<void*>(base + (static_cast<uintptr_t>(p) & (Cfg::region_size - 1)));
     }
   }
 
